@@ -115,7 +115,34 @@ func readerProgram(r *Rng, meta GraphMeta, d Dialect, n int) []string {
 			from = meta.Funcs
 		}
 		add("%s = M.get(%q)\n", x, pick(from))
-		switch r.Intn(25) {
+		switch r.Intn(32) {
+		case 25, 26:
+			// Go push iterators driven by the host over the shared value: full
+			// traversal, early exit, failing call-back
+			add("attempt(each, %s, lambda e: probe(type(e)), %d)\n", x, r.Pick3(0, 1, 2))
+			add("attempt(each, %s, lambda e: 0)\n", x)
+			add("attempt(eachkv, %s, lambda k, v: probe(type(k)))\n", x)
+			add("attempt(each, %s, lambda e: [1][5])\n", x)
+		case 27, 28:
+			// new values built from the shared one (sums, slices, copies, unions),
+			// kept, mutated and read back: nothing another thread does may show
+			y, z := fresh("y"), fresh("z")
+			add("def %s(x):\n    a = x + struct(zz_%s=%d)\n    b = x + struct(zz_%s_2=%d, zzz=[])\n    probe(a, b)\n    return [a, b]\n", y, y, i, y, i+1)
+			add("%s = attempt(%s, %s)\n", z, y, x)
+			add("probe(%s)\n", z)
+		case 29, 30, 31:
+			typ := r.Pick([]string{"list", "dict", "tuple", "list"})
+			if d.Set && r.Chance(1, 4) {
+				typ = "set"
+			}
+			exprs := c04derive[typ]
+			e := strings.ReplaceAll(exprs[r.Intn(len(exprs))], "x", "q")
+			if !d.Set && strings.Contains(e, "set(") {
+				e = "list(q)"
+			}
+			y := fresh("dv")
+			add("def %s(q):\n    d = %s\n    m = getattr(d, \"append\", None) or getattr(d, \"add\", None)\n    if m:\n        m(%d)\n    elif type(d) == \"dict\":\n        d[\"mine-%d\"] = %d\n    probe(d)\n    return d\n", y, e, 1000+i, i, i)
+			add("attempt(%s, %s)\nprobe(%s)\n", y, x, x)
 		case 22, 23:
 			// hashing: the value as a dict key, a set element, an `in` operand
 			add("attempt(lambda: own.update({%s: len(own), (%s, 1): 2}))\n", x, x)
